@@ -149,7 +149,7 @@ def IterResult.digestLines (start : Path) (r : IterResult) : List String :=
       ++ objs 0 r.exec.objs
     let safe := [s!"V {r.exec.path.safetyView}", threadsSafety s!"H {r.exec.threads.render}"]
       ++ (objs 0 r.exec.objs).map objSafety
-    evs ++ ["T ok", s!"XS {hex64 (fnv1a ("\n".intercalate safe))}",
+    evs ++ ["T ok", s!"V {r.exec.path.safetyView}", s!"XS {hex64 (fnv1a ("\n".intercalate safe))}",
             s!"XE {hex64 (fnv1a ("\n".intercalate full))}"]
 
 end LoomVerif
